@@ -25,8 +25,12 @@ Init == /\ flowmap = <<>> /\ recs = <<>> /\ opts \in InitOpts /\ ops = 0 /\ nloa
 Emit(evs) == obs' = evs /\ mon' = FoldEvents(MonStep, mon, evs)
 Live == mon.bad = <<>>
 
-\* ServerPlayback._hash
-CodeKey(r, o) == [RefKey(r, o) EXCEPT !.path = <<r.path[1]>>]
+\* ServerPlayback._hash: urlparse drops the path parameters; multipart fields are bytes pairs and urlencoded fields
+\* str pairs, so the form encodings are told apart exactly when a non-ignored field is left
+CodeKey(r, o) == [RefKey(r, o) EXCEPT !.path = <<r.path[1]>>,
+                                      !.body = IF FormBranch(r, o)
+                                               THEN <<"form", IF Fields(r, o) = <<>> THEN "" ELSE r.ftype, Fields(r, o)>>
+                                               ELSE @]
 
 AllIds(fm) == UNION { ToSet(fm[k].ids) : k \in 1..Len(fm) }
 Held(fm) == SetToSortSeq(AllIds(fm), <)
